@@ -239,9 +239,14 @@ class Gen:
           lines += [f's.sink{nblk}_ = Wire( {w} )', '@update', f'def blk{nblk}_():', f'  s.sink{nblk}_ @= {e}']
           nblk += 1
         s.features.add('upblk-read')
-      else:
-        s.post_local = getattr(s, 'post_local', [])
-    return lines
+    # every lazily created object is produced through (at least) two independent accesses: the expressions used above are
+    # evaluated once more, as bare expressions, at the end of construct (a connect / block read + a second evaluation)
+    again = []
+    for l in lines:
+      m = re.match(r'connect\( (s\S*), \d+ \)$', l) or re.match(r'  s\.sink\d+_ @= (s\S*)$', l) or re.match(r'(s[.\[]\S*)$', l)
+      if m and rng.random() < 0.7: again.append(m.group(1))
+    if again: s.features.add('second-access-in-construct')
+    return lines + again
 
   def build(s):
     budget = s.rng.choice([0, 1, 1, 2, 2, 3]) if s.size != 'small' else s.rng.choice([0, 1, 2])
@@ -316,6 +321,97 @@ def reach(top):
   return out
 
 def cstr(x): return 'None' if x is None else f'(Some "{x}"%string)'
+
+def realias(g, top, objs):
+  """second, independent access paths to every lazily created object: each must yield the identical object.
+  returns list of (kind, what, name)"""
+  from pymtl3.dsl.Connectable import Signal
+  from pymtl3.datatypes import Bits
+  rng = g.rng
+  bad = []
+  env = {'s': top}
+  g.alias_exprs = []
+  for o in sorted((x for x in objs if isinstance(x, Signal)), key=repr):
+    n = repr(o)
+    alts = [n]
+    sl = o._dsl.slice
+    if sl is not None:
+      par = o.get_parent_object(); pn = repr(par); w = par._dsl.Type.nbits
+      a, b = sl.start, sl.stop
+      alts.append(f'{pn}[{a}:{b}]')
+      a0 = rng.randrange(0, a + 1); b0 = rng.randrange(b, w + 1)
+      alts.append(f'{pn}[{a0}:{b0}][{a - a0}:{b - a0}]')
+      alts.append(f'{pn}[{a0}:{b0}][{a - a0}:{b - a0}]')            # the same nested expression twice
+      if b - a0 > b - a: alts.append(f'{pn}[{a0}:{b}][{a - a0}:{b - a0}][0:{b - a}]')
+      if b == a + 1: alts += [f'{pn}[{a}]', f'{pn}[{a0}:{b0}][{a - a0}]']
+    elif not o.is_top_level_signal():
+      par = o.get_parent_object()
+      alts.append(repr(par) + '.' + o._dsl.my_name)
+    elif issubclass(o._dsl.Type, Bits) and rng.random() < 0.3:
+      w = o._dsl.Type.nbits
+      alts.append(f'{n}[0:{w}][0:{w}]' if w > 1 else f'{n}[0:1]')
+      alts.pop()                                                      # (whole-width slices are different objects than the signal)
+    g.alias_exprs += alts
+    for e in alts:
+      try: r = eval(e, env)
+      except Exception as ex:
+        bad.append(('realias-raises', f'evaluating {e} (another spelling of {n}) raises {type(ex).__name__}: {ex}', n)); continue
+      if r is not o:
+        bad.append(('realias-identity', f'{e} evaluates to a different object than the existing {n} (named {r!r})', n))
+  return bad
+
+def metadata_objects(top):
+  """every NamedObject referenced from the design's metadata structures: (where, object)"""
+  from pymtl3.dsl.NamedObject import NamedObject
+  from pymtl3.dsl.Connectable import Signal
+  out = []
+  def add(where, x):
+    if isinstance(x, NamedObject): out.append((where, x))
+  d = top._dsl
+  for k, vs in top.get_signal_adjacency_dict().items():
+    add('adjacency', k)
+    for v in vs: add('adjacency', v)
+  for w, net in top.get_all_value_nets():
+    add('value-nets', w)
+    for v in net: add('value-nets', v)
+  for w, net in top.get_all_method_nets():
+    add('method-nets', w)
+    for v in net: add('method-nets', v)
+  for tab, nm_ in zip(top.get_all_upblk_metadata(), ('upblk-reads', 'upblk-writes', 'upblk-calls')):
+    for b, objs in tab.items():
+      for x in objs: add(nm_, x)
+  for x in d.all_signals: add('all_signals', x)
+  for x in d.all_named_objects: add('all_named_objects', x)
+  for c in top.get_all_components():
+    for k, vs in c._dsl.adjacency.items():
+      add('component-adjacency', k)
+      for v in vs: add('component-adjacency', v)
+    for a, b in c._dsl.connect_order: add('connect_order', a); add('connect_order', b)
+  for x in list(d.all_signals):
+    for key, v in x._dsl.slices.items(): add('slices-registry', v)
+  return out
+
+def identity_checks(top, mobjs, reach_ids):
+  """objects found in metadata must be THE objects their names evaluate to, and registered slices of their parents"""
+  from pymtl3.dsl.Connectable import Signal
+  bad, seen = [], set()
+  env = {'s': top}
+  for where, o in mobjs:
+    if (where, id(o)) in seen: continue
+    seen.add((where, id(o)))
+    n = repr(o)
+    try: e = eval(n, env)
+    except Exception as ex:
+      bad.append((f'identity-{where}', f'object {n} found in {where}: eval of its name raises {type(ex).__name__}', n)); continue
+    if e is not o:
+      bad.append((f'identity-{where}', f'the object named {n} found in {where} is not the object eval({n!r}) returns', n)); continue
+    if id(o) not in reach_ids:
+      bad.append((f'unreachable-{where}', f'object {n} found in {where} is not reachable from top through attributes', n))
+    if isinstance(o, Signal) and o._dsl.slice is not None:
+      par = o.get_parent_object(); key = (o._dsl.slice.start, o._dsl.slice.stop)
+      if par._dsl.slices.get(key) is not o or par.__dict__.get(key) is not o:
+        bad.append((f'slice-registry-{where}', f'slice {n} found in {where} is not the registered slice {key} of its parent', n))
+  return bad
 
 def observe(top, objs):
   from pymtl3.dsl import Component, Interface
@@ -402,13 +498,20 @@ def one_design(ctx, g, cases, meta):
       post.remove(n)
       ctx.violation('C14:post-eval', f'{g.tag}: accessing {n} after elaboration raises {type(e).__name__}: {e}', {'design_source': src, 'expression': n})
   objs = reach(top)
+  bad = realias(g, top, objs)
+  objs = reach(top)                      # (intermediate slices created by the alternative spellings are objects too)
+  mobjs = metadata_objects(top)
+  ids = {id(x) for x in objs}
+  bad += identity_checks(top, mobjs, ids)
+  for where, x in mobjs:                 # repr -> object must be a function over everything any metadata structure refers to
+    if id(x) not in ids: ids.add(id(x)); objs.append(x)
   obs = observe(top, objs)
-  bad = python_checks(ctx, g.tag, src, top, obs, post)
-  for kind, what, n in bad[:3]:
+  bad += python_checks(ctx, g.tag, src, top, obs, post)
+  for kind, what, n in bad[:4]:
     ctx.violation(f'C14:{kind}', f'{g.tag}: {what}', {'design_source': src, 'object': n, 'post_elaboration_accesses': post})
   # second elaboration of a fresh instance (same code, same post-elaboration accesses): same name set
   top2 = cls(); top2.elaborate()
-  for n in post:
+  for n in post + getattr(g, 'alias_exprs', []):
     try: eval(n, {'s': top2})
     except Exception: pass
   n1, n2 = sorted(o['name'] for o in obs), sorted(repr(x) for x in reach(top2))
